@@ -1,4 +1,5 @@
 import BoltonsVerif.C03.Proofs
+import BoltonsVerif.C03.Micro
 import BoltonsVerif.Generated.C03_CacheLocks
 import BoltonsVerif.C02.Proofs
 /-
@@ -200,7 +201,59 @@ theorem cache_quiescent_state (body : C02.Op K V → Prog (C02.Cache K V) (Cache
     rw [hsh, heq]; exact run_inv _ (C02.Inv.init lru max om hmax) _
   exact ⟨log, hprog, by rw [hsh, heq], hinv, hinv.cap⟩
 
+/-- the same for the concrete three-write decomposition of `__setitem__` (`C03.microBody`, ring write /
+    dict delete / dict insert as separate micro-steps): no hypothesis about the bodies is left -/
+theorem cache_quiescent_state_micro
+    (lru : Bool) (max : Nat) (hmax : 1 ≤ max) (om : Option (K → V))
+    (progs : List (List (C02.Op K V))) (sch : List Tid) (c : Cfg (C02.Cache K V) (C02.Op K V) (CacheOut K V))
+    (hexec : (Cfg.init (C02.Cache.init lru max om) progs).exec (cacheSys microBody) sch = some c)
+    (hdone : c.complete = true) :
+    ∃ log : List (Tid × C02.Op K V),
+      (∀ i p, progs[i]? = some p → opsOf i log = p) ∧
+      c.shared = C02.run (C02.Cache.init lru max om) (log.map (·.2)) ∧
+      C02.Inv c.shared ∧ c.shared.d.length ≤ c.shared.max :=
+  cache_quiescent_state microBody microBody_meaning microBody_wn lru max hmax om progs sch c hexec hdone
+
 end CacheInstance
+
+/-! ### Lock blocks are well nested by construction
+
+The source takes the lock only in block-structured ways (`with self._lock:` / `acquire(); try … finally
+release()` / a helper doing so; the translator records which — `Generated.C03.methods[·].form`), and a
+nested call of another public method is again such a block.  For programs of that shape the hypothesis
+`hwn` is a theorem (`Structured.wn`), so serializability needs the protection hypothesis only. -/
+
+/-- serializability for structured bodies: no well-nestedness hypothesis -/
+theorem serializable_structured (sys : Sys S Op Out) (s0 : S) (progs : List (List Op))
+    (hprot : ∀ o, sys.protect o = true) (hstr : ∀ o, Structured (sys.body o))
+    (sch : List Tid) (c : Cfg S Op Out)
+    (hexec : (Cfg.init s0 progs).exec sys sch = some c) (hdone : c.complete = true) :
+    ∃ log : List (Tid × Op),
+      (∀ i p, progs[i]? = some p → opsOf i log = p) ∧
+      c.shared = serialState sys s0 log ∧
+      (∀ i t, c.threads[i]? = some t → t.outs = serialOuts sys s0 i log) ∧
+      c.owner = none :=
+  serializable sys s0 progs hprot (fun o => (hstr o).wn) sch c hexec hdone
+
+/-- the lock does not change what a body computes when run alone: `with self._lock: p` means `p` -/
+theorem lock_is_sequentially_transparent {A : Type} (p : Prog S A) (s : S) :
+    runProg (withLock p) s = runProg p s := runProg_withLock p s
+
+/-- a nested re-entrant block inside a block (`get → self[key]`, `__getitem__ → on_miss → self[key] = v`):
+    any nesting depth is well nested -/
+theorem nested_lock_blocks_wn {A : Type} (p : Prog S A) (hp : Structured p) (n : Nat) :
+    WN 0 (Nat.rec p (fun _ q => withLock q) n) := by
+  have : Structured (Nat.rec p (fun _ q => withLock q) n : Prog S A) := by
+    induction n with
+    | zero => exact hp
+    | succ n ih => exact Structured.locked _ ih
+  exact this.wn
+
+/-- non-vacuity: `get` as the source writes it — a lock block whose body calls `self[key]`, itself a lock
+    block around one read — is structured -/
+example (f : S → Out) : Structured (withLock (withLock (.step id fun s => .ret (f s))) : Prog S Out) :=
+  .locked _ (.locked _ (.step _ _ fun s => .ret (f s)))
+
 
 /-! Necessity of the hypothesis: with an UNPROTECTED insert two threads can both
     see "not full" and both insert, exceeding the capacity. -/
@@ -218,6 +271,42 @@ theorem unprotected_breaks :
     ∃ sch : List Tid, ∃ c, (Cfg.init [] [[7], [8]]).exec toyUnprotected sch = some c ∧
       c.complete = true ∧ 1 < c.shared.length :=
   ⟨[0, 0, 1, 1, 0, 1, 0, 1], _, rfl, by decide, by decide⟩
+
+/-! The known finding C03-readers inside the model.  `len` / `in` / iteration are inherited from dict and
+    take no lock.  With the three-write `__setitem__` of `C03.microBody`, an unlocked `len` scheduled between
+    the dict delete of the evicted key and the dict insert of the new one answers 1, although the cache holds
+    2 items before and after the insert: the FULL statement (readers included) is false for the code as it
+    is; `serializable` is the part that holds (locked operations), the harness compares exactly that part. -/
+
+def readerSys : Sys (C02.Cache Nat Nat) (C02.Op Nat Nat) (COut Nat Nat) where
+  body := microBody
+  protect := fun o => match o with
+    | .len => false | .contains _ => false | .items => false
+    | _ => true
+
+/-- LRU(max_size=2) holding keys 1 and 2 -/
+def full2 : C02.Cache Nat Nat := ((C02.Cache.init true 2 none).setitem 1 0).setitem 2 0
+
+def lenOf : COut Nat Nat → Option Nat
+  | .nat n => some n
+  | _ => none
+
+theorem reader_sees_half_done_eviction :
+    ∃ sch : List Tid, ∃ c,
+      (Cfg.init full2 [[C02.Op.setitem 3 1], [C02.Op.len]]).exec readerSys sch = some c ∧
+      c.complete = true ∧
+      (c.threads[1]?.map fun t => t.outs.map lenOf) = some [some 1] ∧
+      -- both sequential orders answer 2
+      lenOf (C02.step full2 .len).2 = some 2 ∧
+      lenOf (C02.step (C02.step full2 (.setitem 3 1)).1 .len).2 = some 2 :=
+  ⟨[0, 0, 0, 1, 1, 1, 0, 0], _, rfl, by decide, by decide, by decide, by decide⟩
+
+/-- and the state that reader saw breaks the C02 invariant (ring has 2 links, dict 1 item): only the lock
+    keeps such states invisible to the other *locked* operations -/
+theorem half_done_state_inconsistent :
+    ∃ c, (Cfg.init full2 [[C02.Op.setitem 3 1]]).exec readerSys [0, 0, 0] = some c ∧
+      c.shared.d.length = 1 ∧ c.shared.ring.length = 2 ∧ c.owner = some (0, 1) :=
+  ⟨_, rfl, by decide, by decide, by decide⟩
 
 /-- the same programs, protected: the theorem applies (non-vacuity of `serializable`) -/
 example : ∀ o, toyProtected.protect o = true := fun _ => rfl
